@@ -423,9 +423,20 @@ def run_exprs(case, res):
         if n == 0 or zname in ("QueryBuilder", "_SetOperation", "ContainsCriterion.sub", "Star"):
             continue  # subqueries have their own fields by design; Star is a Field named '*'
         tabs = [Table("z%d" % i) for i in range(n)]
-        for same_col in (True, False):
+        for same_col, inner in ((True, None), (False, None), (False, "arith"), (False, "neg"), (False, "func")):
             fields = [Field("x" if same_col else "c%d" % i, table=tabs[i]) for i in range(n)]
-            term = build(fields)
+            if inner:
+                # every slot holds an expression over its column instead of the bare column (kinds whose constructor needs a
+                # bare column are skipped for this dimension)
+                wrap = {"arith": lambda f_: f_ + 1, "neg": lambda f_: -f_, "func": lambda f_: FN.Lower(f_)}[inner]
+                if zname in ("Values", "AtTimezone") or zname.endswith(".star"):
+                    continue
+                try:
+                    term = build([wrap(f_) for f_ in fields])
+                except (AttributeError, TypeError):
+                    continue
+            else:
+                term = build(fields)
             res.transitions += 1
             exp_f = {(("z%d" % i, None), "x" if same_col else "c%d" % i) for i in range(n)}
             if zname.endswith(".star"):
